@@ -121,7 +121,8 @@ func runCP(c *ctx, cfg cpCfg, seed int64) rTrace {
 		var cand, bodies []string
 		for _, n := range en {
 			if n == "C" {
-				if cfg.Cancel && rng.Intn(25) == 0 {
+				// (in a rendezvous schedule the canceller waits until the pool has been seen at its fullest)
+				if cfg.Cancel && rng.Intn(25) == 0 && !(tr.Cfg.Rendezvous && !rvLogged) {
 					cand = append(cand, n)
 				}
 				continue
